@@ -3,6 +3,7 @@ package rules
 import (
 	"fmt"
 	"go/types"
+	"os"
 	"regexp"
 	"sort"
 	"strings"
@@ -487,6 +488,19 @@ func DebugProv(c *core.Ctx, pkgs []string) {
 				for _, in := range b.Instrs {
 					if core.IsPortMethod(in, "Send") {
 						fmt.Printf("%s: %s.Send(%s)\n", core.FuncName(fn), portOfCall(in), prov.Of(core.CallOf(in).Args[0]))
+					}
+					if mu, ok := in.(*ssa.MapUpdate); ok {
+						fmt.Printf("%s: %s[%s] = %s\n", core.FuncName(fn), prov.Of(mu.Map), prov.Of(mu.Key), prov.Of(mu.Value))
+					}
+					if cf := core.CalleeFunc(in); cf != nil && os.Getenv("DBG_CALLS") != "" {
+						var as []string
+						for _, a := range core.CallOf(in).Args {
+							as = append(as, prov.Of(a))
+						}
+						fmt.Printf("%s: call %s(%s)\n", core.FuncName(fn), core.FuncID(cf), strings.Join(as, ", "))
+					}
+					if iff, ok := in.(*ssa.If); ok && os.Getenv("DBG_CALLS") != "" {
+						fmt.Printf("%s: if %s\n", core.FuncName(fn), prov.Of(iff.Cond))
 					}
 					if st, ok := in.(*ssa.Store); ok {
 						if f := core.FieldOfAddr(st.Addr); f != nil {
